@@ -1,10 +1,11 @@
 \* thorough: policy-independent safety over a window of 6
 CONSTANT W = 6
-CONSTANT MaxSteps = 8
+CONSTANT MaxSteps = 6
 CONSTANT MaxNums = {0}
 CONSTANT Olds = {FALSE}
 CONSTANT Kinds <- KTwo
 CONSTANT Ranges <- RMid
+CONSTANT DocEvs <- DFour
 CONSTANT MaxDup = 2
 CONSTANT MaxRangeArr = 2
 CONSTANT Policy = "any"
